@@ -393,6 +393,15 @@ class Item:
                         self.log.append({"rule": rule, "what": f"{src} evaluated false: removed `{_short(removed)}`"})
                         i = e
                         continue
+                    if aname == "derive":
+                        # Copy/Clone have type-system meaning (moves); keep exactly those, drop the rest
+                        names = [x.text for x in inner[2:-1] if x.kind == "ident"]
+                        keep = [n for n in ("Clone", "Copy") if n in names]
+                        dropped_attrs.append("".join(x.text for x in toks[i:k + 1]) + (" (kept: " + ",".join(keep) + ")" if keep else ""))
+                        if "Copy" in keep:
+                            out.append("#[derive(Clone, Copy)]")
+                        i = k + 1
+                        continue
                     if aname in ATTR_DROP:
                         dropped_attrs.append("".join(x.text for x in toks[i:k + 1]))
                         i = k + 1
